@@ -30,3 +30,14 @@ package object
 //@ ensures[C08.floats.to.same] result1 == nil && typeof(obj) == *FloatSlice ==> result0.([]float64) == obj.(*FloatSlice).value
 //@ ensures[C08.floats.to.list] result1 == nil && typeof(obj) == *List ==> len(result0.([]float64)) == len(obj.(*List).items) && forall(i, 0, len(obj.(*List).items), faithfulFloat(obj.(*List).items[i], result0.([]float64)[i]))
 //@ ensures[C08.floats.to.reject] result1 != nil ==> result0 == nil
+
+// C16: a map's operations do not depend on which strings it uses as keys. `m.pop`, `m.get`, ... are the container
+// operations whatever the map holds (an entry named like a method stays reachable as m["pop"]); any other name is the
+// entry of that name, if there is one. Seed C16j looked the entries up first: a map holding the key "get" answered
+// m.get with the entry.
+//@ func (*Map).GetAttr
+//@ props C16
+//@ requires m != nil
+//@ modifies nothing
+//@ ensures[C16.map.attr.methods] oneof(name, "keys", "values", "get", "clear", "copy", "items", "pop", "setdefault", "update") ==> result1 && typeof(result0) == *Builtin && fresh(result0)
+//@ ensures[C16.map.attr.entry] !oneof(name, "keys", "values", "get", "clear", "copy", "items", "pop", "setdefault", "update") ==> result1 == old(haskey(m.items, name)) && (result1 ==> result0 == old(m.items[name]))
